@@ -3,6 +3,7 @@
 clauses of the statement that are not claimed."""
 
 PROPS = {
+    'C14': {'scans': [], 'trusted': [], 'bounded': [], 'not_claimed': []},
     'C20': {'scans': [], 'trusted': [], 'bounded': [], 'not_claimed': []},
     'C15': {'scans': [], 'trusted': [], 'bounded': [], 'not_claimed': []},
     'C19': {'scans': [], 'trusted': [], 'bounded': [], 'not_claimed': []},
